@@ -159,3 +159,38 @@ Proof.
   rewrite FMT, !str_eqb_refl. cbn [andb].
   change M_nl with NL. rewrite app_assoc, FMT, !str_eqb_refl. reflexivity.
 Qed.
+
+(* ---- the limit parameter: for a positive limit the model shows the traceback module's entries and text --- *)
+Lemma live_list_eqb_refl l :
+  list_eqb (fun a b => str_eqb (lv_file a) (lv_file b) && (lv_lineno a =? lv_lineno b) &&
+                       str_eqb (lv_name a) (lv_name b) && str_eqb (lv_raw a) (lv_raw b)) l l = true.
+Proof.
+  induction l as [|a l IH]; [reflexivity|]. cbn [list_eqb]. rewrite !str_eqb_refl, N.eqb_refl, IH. reflexivity.
+Qed.
+
+Theorem lim_sound fs e k via_sys :
+  (0 < k)%Z -> fs <> [] -> plain_exc e = true ->
+  let lim_fs := spec_limit k via_sys fs in
+  let T := std_tb P lim_fs e in
+  let cs := model_limit k (map cp_of_live fs) in
+  lim_verdict fs e k via_sys lim_fs
+    ((if is_nil lim_fs then exc_text (t_type T) (t_msg T) else std_text T) ++ NL)
+    (map (fun c => mkCpObs (cp_path c) (cp_lineno c) (cp_func c) (deferred_str P (cp_raw c))) cs)
+    (tbi_formatted P cs ++ ei_exc_only (ei_type (ex_module e) (ex_qualname e)) (ei_msg e) ++ M_nl)
+  = (true, true, false).
+Proof.
+  intros Hk Hne He. cbv zeta. unfold lim_verdict.
+  assert (Kpos : (k <=? 0)%Z = false) by (apply Z.leb_gt; exact Hk).
+  assert (Knn : (0 <=? k)%Z = true) by (apply Z.leb_le; lia).
+  assert (CS : model_limit k (map cp_of_live fs) = map cp_of_live (spec_limit k via_sys fs)).
+  { unfold model_limit, spec_limit. rewrite Kpos, Knn. apply firstn_map. }
+  assert (Hhint : hint_of e = Some []) by (unfold plain_exc in He; unfold hint_of; rewrite He; reflexivity).
+  rewrite cp_obs_list_refl, !str_eqb_refl, live_list_eqb_refl, Hhint, Kpos, He. cbn [is_some andb orb negb].
+  rewrite CS, frames_match_model. cbn [andb].
+  pose proof (format_partial P (spec_limit k via_sys fs) e He) as FMT. unfold ei_text, ei_formatted in FMT.
+  destruct (spec_limit k via_sys fs) as [|l ls] eqn:EL.
+  - (* a positive limit keeps at least the first entry *)
+    exfalso. unfold spec_limit in EL. rewrite Knn in EL. destruct fs as [|f0 fs']; [contradiction|].
+    destruct (Z.to_nat k) eqn:EK; [lia|]. discriminate.
+  - cbn [is_nil]. change M_nl with NL. rewrite app_assoc, FMT, str_eqb_refl. reflexivity.
+Qed.
